@@ -35,7 +35,7 @@ Qed.
 
 (* a bid is recorded only if ... (exact terms, invariant state, outside K_inexact) *)
 Theorem create_bid_admission_only_if e st sender funds id base fee price quote qsize size st' r :
-  clean_exec st (CreateBid id base fee price quote qsize size) ->
+  InvA st ->
   execute FX e st sender funds (CreateBid id base fee price quote qsize size) = Ok (st', r) ->
   exists c p rate total calc,
     uuid_canonical id = true /\ 1 <= qsize /\ 1 <= size /\
@@ -51,7 +51,7 @@ Theorem create_bid_admission_only_if e st sender funds id base fee price quote q
     r = mkresp (pull_msgs e (qsize + fee_amt fee) quote sender)
                (create_bid_attrs (new_bid sender id base fee price quote qsize size)).
 Proof.
-  intros Hclean H. unfold execute in H. guard_inv H Hv. cbn [validate_exec] in Hv.
+  intros HA H. unfold execute in H. guard_inv H Hv. cbn [validate_exec] in Hv.
   repeat (apply andb_prop in Hv as [Hv ?]).
   apply create_bid_inv in H as (c & p & total & dq & rate & calc & tot & Hc & Hp & Hlot & Hm & Hfr & Hdq & Heq & Hrate & Hcalc &
     Hfee & Hqin & Hbase & Hat & Htot & Hfu & Hnone & -> & ->).
@@ -59,7 +59,7 @@ Proof.
   assert (Hq1 : 1 <= qsize) by (apply N.leb_le; assumption). assert (Hqnz : qsize <> 0) by lia.
   assert (Htq : tot = qsize) by exact (int_eq_of_dec_eqb total qsize tot Hfr Htot Hqnz Heq). subst tot.
   assert (HQ : qsize * 10 ^ d_scale p = d_mant p * size).
-  { eapply (mul_size_units p size total qsize Hm); [eapply Hclean; eauto|exact Hfr|exact Htot]. }
+  { eapply (mul_size_units p size total qsize Hm); [eapply create_bid_exact; eauto|exact Hfr|exact Htot]. }
   exists c, p, rate, total, calc.
   repeat match goal with |- _ /\ _ => split end; auto; try (apply N.leb_le; assumption).
   eapply valid_price_of; eauto.
